@@ -144,7 +144,8 @@ class C18(F.Check):
     technique = ('exhaustive enumeration of arrival patterns (1-3 bursts x 1-3 records with sizes {1, B-1, B, B+1, 2B+1} around the receive size B, frame '
                  'pattern shifted through its alignments) on an explicit transport model -- plain: kernel buffer; TLS: kernel records -> one decrypted '
                  'record -> pending() -- driving the real SelectorBase.wait and run loop on a virtual clock with poll=60; whenever the client is about to '
-                 'block, no available byte may be unread, no complete message undelivered and no Pong unwritten')
+                 'block, no available byte may be unread, no complete message undelivered and no Pong unwritten; also run over the selector class the library '
+                 'picks for the platform (poll / level- or edge-triggered epoll / kqueue over a fake select module)')
     assumptions = [
         'B is scaled down through the class attribute WebsocketSession.BUFFER_SIZE=8 for the exhaustive part; a dozen patterns run at the real 64 KiB / 16 KiB sizes',
         'TLS model: a read never crosses a record boundary and is clamped to the buffer (as SSLSocket.read does); at most one decrypted record is buffered',
